@@ -125,7 +125,7 @@ def run(ctx):
         ordered = ordered[:420]
     verdicts, stats, ran = F.replay(ctx, ordered, threads, int(os.environ.get('VERIF_FETCH_BUDGET', 600 if thorough else 60)))
     done = stats.get("evaluations", 0)
-    if done < (60 if not thorough else 600):
+    if done < (25 if not thorough else 300):
         raise vlib.ToolError(f"only {done} scenarios replayed within the time budget")
     drift = 0
     for r in verdicts:
